@@ -198,17 +198,20 @@ func (p *ProofD) MergeProofP(proofP *ProofP, _ *gabikeys.PublicKey) {
 }
 
 func (p *ProofD) reconstructRangeProofStructures(pk *gabikeys.PublicKey) error {
-	p.cachedRangeStructures = make(map[int][]*rangeproof.ProofStructure)
+	// the cache is only set once all structures have been reconstructed: a partial cache left behind by a
+	// failed verification would make a later verification of the same object skip the missing range proofs
+	structures := make(map[int][]*rangeproof.ProofStructure)
 	for index, proofs := range p.RangeProofs {
-		p.cachedRangeStructures[index] = []*rangeproof.ProofStructure{}
+		structures[index] = []*rangeproof.ProofStructure{}
 		for _, proof := range proofs {
 			s, err := proof.ExtractStructure(index, pk)
 			if err != nil {
 				return err
 			}
-			p.cachedRangeStructures[index] = append(p.cachedRangeStructures[index], s)
+			structures[index] = append(structures[index], s)
 		}
 	}
+	p.cachedRangeStructures = structures
 	return nil
 }
 
